@@ -54,7 +54,7 @@ import (
 // cases
 
 type Op struct {
-	K   string `json:"k"`             // add | adv | recv | park | release | close | cancel | flush
+	K   string `json:"k"`             // add | adv | recv | park | release | close | cancel | flush | run
 	N   int    `json:"n,omitempty"`   // add: number of Add calls; recv: max signals to take
 	G   int    `json:"g,omitempty"`   // add: number of goroutines issuing them
 	Rel string `json:"rel,omitempty"` // adv: inside | exact | beyond | gap (resolved against the armed timer when run)
@@ -70,7 +70,9 @@ type Case struct {
 	Max      int64  `json:"max"`
 	Cap      int    `json:"cap"`      // 0 = unset
 	Consumer string `json:"consumer"` // prompt | slow
-	Ops      []Op   `json:"ops"`
+	// LateRun: Run is not called at the start; `run` ops call it (the first may come after Adds or after Close).
+	LateRun bool `json:"late_run,omitempty"`
+	Ops     []Op `json:"ops"`
 }
 
 func (c Case) key() string {
@@ -105,6 +107,8 @@ type exec struct {
 	panics    []string
 
 	runIssued, runReturned     int
+	runErrReturned             int // Run calls that returned "already running"
+	ctx                        context.Context
 	closeIssued, closeReturned int
 
 	ignore map[int]bool
@@ -116,6 +120,9 @@ type exec struct {
 	received   int
 	lo, hi     int
 	running    bool // Run issued, neither Close nor cancel issued
+	cancelled  bool
+	lateNil    int  // Run calls after the first that returned nil
+	firstErr   bool // the first Run call returned "already running"
 	everClosed bool
 	closeRetAt int // number of signals received when the first Close returned (-1: none yet)
 	lastSnap   snapshot
@@ -195,7 +202,7 @@ func (ex *exec) settle() (snapshot, bool) {
 		// read the return counters BEFORE the dump: a caller that returns after the read is then
 		// either still visible in the (later) dump or makes the equation fail, never a stale match
 		ex.mu.Lock()
-		cr, ci, rr, ri := ex.closeReturned, ex.closeIssued, ex.runReturned, ex.runIssued
+		cr, ci, rr, ri := ex.closeReturned, ex.closeIssued, ex.runReturned+ex.runErrReturned, ex.runIssued
 		ex.mu.Unlock()
 		snap := snapshotOf(dumpGoroutines(), ex.ignore)
 		ok := snap.allBlocked && snap.Adders == 0 && snap.Closers+cr == ci && snap.Loop+rr == ri
@@ -324,6 +331,7 @@ func (ex *exec) step(op *Op) bool {
 	preLo := ex.lo
 	nAdds := 0
 	wasRunning := ex.running
+	loopStarts := false
 	ex.stats["op:"+op.K]++
 
 	switch op.K {
@@ -411,11 +419,19 @@ func (ex *exec) step(op *Op) bool {
 			}
 			ex.mu.Unlock()
 		}()
+	case "run":
+		first := ex.runIssued == 0
+		ex.callRun()
+		if first && ex.running {
+			wasRunning = true // the step in which the loop starts is judged like a running step
+			loopStarts = true
+		}
 	case "cancel":
 		ex.mu.Lock()
 		ex.rec("cancel", false)
 		ex.cancl()
 		ex.running = false
+		ex.cancelled = true
 		ex.mu.Unlock()
 	}
 
@@ -452,6 +468,23 @@ func (ex *exec) step(op *Op) bool {
 	}
 	_ = ci
 
+	if !wasRunning && ex.runIssued == 0 && !ex.everClosed && op.K == "add" {
+		// Adds before Run: accepted, nothing can signal them yet
+		ex.lo += nAdds
+		ex.hi += nAdds
+		if ex.received+snap.Senders > 0 {
+			ex.violate("signal-without-add", "a signal although Run has not been called")
+		}
+	}
+	if ex.lateNil > 0 {
+		ex.violate("second-run-returned-nil", fmt.Sprintf("%d Run calls after the first returned nil instead of \"already running\"", ex.lateNil))
+	}
+	if ex.firstErr {
+		ex.violate("first-run-rejected", "the first Run call returned \"already running\"")
+	}
+	if snap.Loop > 1 {
+		ex.violate("second-run-started", fmt.Sprintf("%d goroutines are inside Run", snap.Loop))
+	}
 	if wasRunning && ex.running {
 		ex.fires = ex.received + snap.Senders
 		f := ex.fires - preFires
@@ -505,6 +538,9 @@ func (ex *exec) step(op *Op) bool {
 				if f != 0 {
 					ex.violate("signal-inside-window", fmt.Sprintf("%d signals while the window (deadline %d) stayed open at now=%d, no cap", f, preD, now))
 				}
+			}
+			if loopStarts && preLo > 0 && f == 0 {
+				ex.violate("add-lost", fmt.Sprintf("%d Adds were pending when Run started; no signal", preLo))
 			}
 			if op.K == "adv" && preOpen && preD <= now {
 				ex.stats["mon:window-end"]++
@@ -575,6 +611,44 @@ type outcome struct {
 
 var leaked = map[int]bool{}
 
+// callRun issues one Run call. The first call that is issued while the limiter is neither closed
+// nor cancelled makes the limiter "running" for the monitors; every call after the first must
+// return "already running".
+func (ex *exec) callRun() {
+	ex.mu.Lock()
+	ex.rec("runcall", false)
+	ex.runIssued++
+	nth := ex.runIssued
+	if nth == 1 && !ex.everClosed && !ex.cancelled {
+		ex.running = true
+	}
+	ex.mu.Unlock()
+	go func() {
+		defer ex.guard("Run")
+		err := ex.rl.Run(ex.ctx, ex.ch)
+		ex.mu.Lock()
+		switch {
+		case err == nil:
+			ex.rec("runret", false)
+			ex.runReturned++
+			if nth > 1 {
+				ex.lateNil++
+			}
+		case err.Error() == "already running":
+			ex.rec("runerr", false)
+			ex.runErrReturned++
+			if nth == 1 {
+				ex.firstErr = true
+			}
+		default:
+			ex.panics = append(ex.panics, "Run returned error: "+err.Error())
+			ex.rec("runret", false)
+			ex.runReturned++
+		}
+		ex.mu.Unlock()
+	}()
+}
+
 // runCase executes c (ops are resolved in place; gen, when not nil, supplies further ops adaptively).
 func runCase(c Case, gen func(ex *exec, i int) *Op) *outcome {
 	ex := &exec{c: c, clk: NewVClock(), ch: make(chan struct{}), closeRetAt: -1, stats: map[string]int{}}
@@ -604,22 +678,10 @@ func runCase(c Case, gen func(ex *exec, i int) *Op) *outcome {
 	verifhook.Set(func(name string, _ ...any) { ex.onHook(name) })
 	defer verifhook.Set(nil)
 
-	ex.mu.Lock()
-	ex.rec("runcall", false)
-	ex.runIssued = 1
-	ex.running = true
-	ex.mu.Unlock()
-	go func() {
-		defer ex.guard("Run")
-		err := rl.Run(ctx, ex.ch)
-		ex.mu.Lock()
-		if err != nil {
-			ex.panics = append(ex.panics, "Run returned error: "+err.Error())
-		}
-		ex.rec("runret", false)
-		ex.runReturned++
-		ex.mu.Unlock()
-	}()
+	ex.ctx = ctx
+	if !c.LateRun {
+		ex.callRun()
+	}
 	ok := ex.quiesce()
 	var ops []Op
 	for i := 0; ok; i++ {
@@ -654,14 +716,14 @@ func runCase(c Case, gen func(ex *exec, i int) *Op) *outcome {
 	}
 	if ok {
 		ex.mu.Lock()
-		cr, ci, rr := ex.closeReturned, ex.closeIssued, ex.runReturned
+		cr, ci, rr, ri := ex.closeReturned, ex.closeIssued, ex.runReturned+ex.runErrReturned, ex.runIssued
 		ex.mu.Unlock()
 		if cr < ci {
 			ex.violate("close-hangs", fmt.Sprintf("%d of %d Close calls have not returned although every goroutine of the limiter is blocked (%s)", ci-cr, ci, ex.lastSnap.key))
 			ex.hung = "Close"
 		}
-		if rr < 1 {
-			ex.violate("run-hangs", "Run has not returned after Close although every goroutine is blocked ("+ex.lastSnap.key+")")
+		if rr < ri {
+			ex.violate("run-hangs", fmt.Sprintf("%d of %d Run calls have not returned after Close although every goroutine is blocked (%s)", ri-rr, ri, ex.lastSnap.key))
 			ex.hung = "Run"
 		}
 		ex.mu.Lock()
@@ -715,6 +777,9 @@ func randCfg(r *lib.Rand, fam string) Case {
 }
 
 func randOp(r *lib.Rand, ex *exec) *Op {
+	if r.Intn(25) == 0 {
+		return &Op{K: "run"}
+	}
 	switch x := r.Intn(100); {
 	case x < 40:
 		return &Op{K: "add", N: 1 + r.Intn(5), G: 1 + r.Intn(3)}
@@ -736,6 +801,7 @@ func randOp(r *lib.Rand, ex *exec) *Op {
 // timeline: random walk, ended by Close or cancel at a random point, sometimes with operations after it.
 func genTimeline(r *lib.Rand) (Case, func(*exec, int) *Op) {
 	c := randCfg(r, "timeline")
+	c.LateRun = r.Intn(6) == 0
 	n := 4 + r.Intn(22)
 	endAt := n
 	endKind := ""
@@ -775,8 +841,10 @@ func genForced(r *lib.Rand) (Case, func(*exec, int) *Op) {
 			script = append(script, Op{K: "add", N: 1 + r.Intn(3), G: 1 + r.Intn(2)})
 		case x < 6:
 			script = append(script, Op{K: "adv", Rel: []string{"inside", "exact", "beyond"}[r.Intn(3)]})
-		case x < 8:
+		case x < 7:
 			script = append(script, Op{K: "close"})
+		case x < 8:
+			script = append(script, Op{K: "run"})
 		case x < 9:
 			script = append(script, Op{K: "cancel"})
 		default:
@@ -862,7 +930,7 @@ func genBig(r *lib.Rand) (Case, func(*exec, int) *Op) {
 // exhaustive small scope: every sequence over the alphabet up to the given length.
 var alphabet = []Op{
 	{K: "add", N: 1, G: 1}, {K: "add", N: 2, G: 2}, {K: "adv", Rel: "inside"}, {K: "adv", Rel: "exact"},
-	{K: "adv", Rel: "beyond"}, {K: "close"}, {K: "cancel"},
+	{K: "adv", Rel: "beyond"}, {K: "close"}, {K: "cancel"}, {K: "run"},
 }
 
 func enumerate(maxLen int, f func([]Op)) {
@@ -1042,6 +1110,14 @@ func report(res *lib.Result, ck *checker, o *outcome) {
 	res.Hit("family:" + o.Case.Family)
 	res.Hit("cap:" + strconv.Itoa(o.Case.Cap))
 	res.Hit("consumer:" + o.Case.Consumer)
+	if o.Case.LateRun {
+		res.Hit("cfg:late-run")
+	}
+	for _, l := range o.Lines {
+		if l.s == "runerr" {
+			res.Hit("run:already-running")
+		}
+	}
 	if o.Case.Initial == o.Case.Max {
 		res.Hit("cfg:initial=max")
 	} else {
@@ -1234,6 +1310,7 @@ func main() {
 		{Family: "exhaustive", Initial: 4, Max: 16, Cap: 0, Consumer: "prompt"},
 		{Family: "exhaustive", Initial: 4, Max: 4, Cap: 2, Consumer: "slow"},
 		{Family: "exhaustive", Initial: 3, Max: 7, Cap: 1, Consumer: "prompt"},
+		{Family: "exhaustive", Initial: 4, Max: 16, Cap: 2, Consumer: "prompt", LateRun: true},
 	}
 	if fl.Tier == "thorough" {
 		cfgs = append(cfgs, Case{Family: "exhaustive", Initial: 4, Max: 16, Cap: 3, Consumer: "slow"},
@@ -1247,7 +1324,7 @@ func main() {
 		})
 	}
 	res.Exhaustive = false
-	res.Note(fmt.Sprintf("exhaustive small scope: every op sequence of length ≤ %d over {add, add×2 from 2 goroutines, advance inside/exactly at/beyond the window end, Close, cancel} for %d configurations", maxLen, len(cfgs)))
+	res.Note(fmt.Sprintf("exhaustive small scope: every op sequence of length ≤ %d over {add, add×2 from 2 goroutines, advance inside/exactly at/beyond the window end, Close, cancel, Run (a further call, or the first one when Run is not called at the start)} for %d configurations", maxLen, len(cfgs)))
 	// 3. seeded timelines
 	for i := 0; i < 500*mult; i++ {
 		c, g := genTimeline(r)
